@@ -11,14 +11,14 @@ def key(p):
 
 
 class Graph:
-    def __init__(self, payloads):
+    def __init__(self, payloads, init=INIT):
         self.trs = payloads
         self.adj = {}
         for i, tr in enumerate(payloads):
             self.adj.setdefault(key(tr['from']), []).append(i)
-        self.path = {key(INIT): []}
-        self.state = {key(INIT): INIT}
-        dq = deque([key(INIT)])
+        self.path = {key(init): []}
+        self.state = {key(init): init}
+        dq = deque([key(init)])
         while dq:
             u = dq.popleft()
             for i in self.adj.get(u, []):
